@@ -207,8 +207,7 @@ def check_config(acc: work.Acc, op: str, shape: str, uc: str, vc: str, kx: str, 
                         if shape in ("QQ", "QU"):
                             want_dim = tuple(a - b for a, b in zip(dU, dV))
                         elif shape == "NQ":
-                            # the library's documented behaviour: number / quantity keeps the unit
-                            want_dim = None
+                            want_dim = tuple(-b for b in dU)      # number / quantity
                         else:
                             want_dim = dU
                         want_unit = None
@@ -234,7 +233,10 @@ def check_config(acc: work.Acc, op: str, shape: str, uc: str, vc: str, kx: str, 
         else:
             acc.ob("sat", name, key)
             m = acc.P.shaped_model([p.cond], [X[kx], Y[ky]]) or {}
-            acc.out["viol"].append((f"C03:{op}:{shape}:{families.show(U)},{families.show(V)}:{kx},{ky}",
+            sig = f"C03:{op}:{shape}:{families.show(U)},{families.show(V)}:{kx},{ky}"
+            if op == "div" and shape == "NQ" and why.startswith("dimension"):
+                sig = "C03:div:NQ:number-divided-by-quantity-keeps-the-unit"
+            acc.out["viol"].append((sig,
                                     f"{label}: {why} at { {k: str(v) for k, v in m.items()} }",
                                     generic_replay(op, shape, uc, vc, kx, ky, n, m)))
     acc.sample({"config": label, "paths": [(p.outcome, [str(c) for c in p.pc][:3])
@@ -256,10 +258,21 @@ def generic_replay(op: str, shape: str, uc: str, vc: str, kx: str, ky: str, n: i
 from measured import Quantity
 U, V = {uc}, {vc}
 x, y = {xv}, {yv}
-a, b = {a}, {bb}
 same_dim = U.dimension is V.dimension
+def compute(x, y):
+    a, b = {a}, {bb}
+    return {expr}
+# history: the same operation on numerically equal magnitudes of the other numeric types first
+# (results must not depend on what was computed earlier in the process)
+for wx in (int(x) if x == int(x) else None, float(x), Decimal(str(x))):
+    if wx is not None and type(wx) is not type(x):
+        try:
+            compute(wx, y)
+        except Exception:
+            pass
+a, b = {a}, {bb}
 try:
-    r = {expr}
+    r = compute(x, y)
     o = ('ok', r)
 except Exception as e:
     o = ('exc', type(e).__name__, str(e))
@@ -283,7 +296,7 @@ if isinstance(r, Quantity):
                 pow=tuple(p * {n} for p in dU), root=tuple(p // ({n} or 1) for p in dU) if {n} else tuple(0 for _ in dU),
                 in_unit=dV, neg=dU, pos=dU, abs=dU)[op]
     if shape == 'NQ' and op == 'div':
-        want = r.unit.dimension.exponents
+        want = tuple(-p for p in dU)
     dec = isinstance(x, Decimal) or (isinstance(y, Decimal) and shape in ('QQ', 'QN', 'NQ') and op in ('add', 'sub', 'mul', 'div'))
     if tuple(r.unit.dimension.exponents) != tuple(want) or (dec and not isinstance(r.magnitude, Decimal)) \\
             or (op in ('add', 'sub') and shape != 'NQ' and r.unit is not U):
